@@ -2,7 +2,7 @@
 # Re-runs every kept mutant and seeded change against the quick tier of its check and prints one line each
 # (DETECTED / MISSED). Applies each patch to /repo and reverts it; /repo must be clean.
 cd "$(dirname "$0")"
-override() { case "$1" in C02-shared-pk-editor|C02-done-before-publish) echo C16;; *) echo "";; esac; }
+override() { case "$1" in C02-shared-pk-editor|C02-done-before-publish|C03-shared-pk-editor-again) echo C16;; C03-skip-indexing-known-blocks) echo C07;; *) echo "";; esac; }
 for p in mutants/*.diff; do
   id=$(basename "$p" | cut -c1-3)
   printf "%s " "$(basename "$p" .diff)"; mutants/run_mutant.sh "$p" "$id" | head -1 | cut -c1-120
